@@ -30,6 +30,8 @@ func Harness_C12_children_exact() {
 		deleted = 1
 	}
 	p.VerifInsert(&models.Header{Name: child, Typeflag: tar.TypeReg, Deleted: deleted, Paxrecords: "{}"})
+	// a younger entry below the directory: it is a child whatever became of the older one
+	p.VerifInsert(&models.Header{Name: d + "/younger", Typeflag: tar.TypeReg, Paxrecords: "{}"})
 	// the directory's own name reused one level down below the sibling
 	p.VerifInsert(&models.Header{Name: sib + d, Typeflag: tar.TypeDir, Paxrecords: "{}"})
 	p.VerifInsert(&models.Header{Name: sib + d + "/z", Typeflag: tar.TypeReg, Paxrecords: "{}"})
